@@ -409,7 +409,8 @@ def w_streams(case):
             continue
         changed = [tuple(int(a) for a in c) for c in np.argwhere(
             ~np.isclose(S1, S0, rtol=0, atol=1e-12))]
-        if pop_draws or (confined and (kind == 'i' or st.startswith('global'))):
+        if pop_draws or e.startswith('priorpop:') or (
+                confined and (kind == 'i' or st.startswith('global'))):
             # an individual's parameter draw legitimately reaches all times of that
             # individual -- but never two individuals (last axis = sample)
             if len(set(c[-1] for c in changed)) > 1:
@@ -541,7 +542,7 @@ def build(tier, seed):
     # (seed 0 is in the alphabet: a falsy seed must behave like any other seed)
     streams = [{'entry': e, 'seed': sd} for e in names
                if e.startswith(('err:', 'pop:', 'pred', 'poppred', 'init:'))
-               or e in SAMPLE_CONFINED
+               or e in SAMPLE_CONFINED or e.startswith('priorpop:')
                for sd in (7, 0)]
     runs = []
     alphabet = (1, 2, 3, 5)
@@ -600,3 +601,4 @@ META['level_text'] += (
     'odels of several individuals inside compositions, initial-point entry points i'
     'n the stream part, controllers on posteriors whose prior has mass where the li'
     'kelihood has none.')
+META['level_text'] += (' Wave 9: stream-partition oracle for prior predictive models around population predictive models (a variate reaches one sample only).')
